@@ -302,7 +302,10 @@ typed_atom = st.one_of(st.sampled_from(WORDS), st.sampled_from(MB), st.sampled_f
                        st.sampled_from(["\n", "\n", ctl("h"), ctl("w"), ctl("u"), ctl("t"), ctl("d"), ctl("p"), ctl("v") + "a", ctl("v") + "\t",
                                         ctl("v") + ESC, ctl("k") + "a:", ctl("k") + "e'", ctl("k") + "zz", ctl("k") + ctl("k"), ctl("r") + "a",
                                         ctl("r") + "\"", ctl("r") + "z", ctl("e"), ctl("f"), ctl("a"), ctl("a") + ctl("a"), "\x7f"]))
-typed_text = st.lists(typed_atom, max_size=8).map("".join)
+# (leading white space that accumulates over the lines of ONE insert: the autoindent buffer holds 128 bytes)
+DEEP_INDENT = [" " * 60 + "q\n", " " * 100 + "a\n", "\t" * 50 + "x\n", " " * 127 + "\n", " " * 126 + "z\n", ctl("t") * 70 + "w\n"]
+typed_text = st.one_of(st.lists(typed_atom, max_size=8).map("".join), st.lists(typed_atom, max_size=8).map("".join),
+                       st.lists(st.one_of(st.sampled_from(DEEP_INDENT), st.sampled_from(DEEP_INDENT), typed_atom), min_size=2, max_size=6).map("".join))
 REGPFX = st.sampled_from(["", "", "", "\"a", "\"b", "\"A", "\"1", "\"9", "\"\\x", "\"\"", "\"z", "\"."])
 
 
